@@ -77,12 +77,15 @@ def meekQuota (s : St α) : α :=
   if A.exact then A.divV s.votes (A.ofInt (s.seats + 1))
   else A.add (A.divV s.votes (A.ofInt (s.seats + 1))) A.eps
 
-def kfUpdate (s : St α) : St α :=
+/-- meek.py caps the updated keep factor at one (`if c.kf >= V1: c.kf = V1`); meek_prf.py, the reference rule, does not -/
+def kfCap (cap : Bool) (k : α) : α := if cap && A.ge k A.one then A.one else k
+
+def kfUpdate (cap : Bool) (s : St α) : St α :=
   s.elected.foldl (fun acc c =>
     match c.kf with
     | some kf =>
       if A.isZero c.vote then acc.setCrash "ZeroDivisionError"
-      else acc.upd c.cid (fun x => { x with kf := some (A.div .up (A.mul .up kf acc.quota) c.vote) })
+      else acc.upd c.cid (fun x => { x with kf := some (kfCap A cap (A.div .up (A.mul .up kf acc.quota) c.vote)) })
     | none => acc.setCrash "TypeError") s
 
 inductive IStatus | elected | omega | stable | batch (b : List Nat) | crash | fuel
@@ -119,8 +122,8 @@ def meekIterate (o : MeekOpts) (omega : α) : Nat → α → St α → St α × 
       ((meekIterCore A o s).logMsg "Stable state detected" [] (some (meekIterCore A o s).surplus), .stable)
     else if !(if o.batchSafe then batchDefeatGroups A (meekIterCore A o s) (meekIterCore A o s).surplus else []).isEmpty then
       (meekIterCore A o s, .batch ((if o.batchSafe then batchDefeatGroups A (meekIterCore A o s) (meekIterCore A o s).surplus else []).map (·.cid)))
-    else if (kfUpdate A (meekIterCore A o s)).crash.isSome then (kfUpdate A (meekIterCore A o s), .crash)
-    else meekIterate o omega fuel (meekIterCore A o s).surplus (kfUpdate A (meekIterCore A o s))
+    else if (kfUpdate A true (meekIterCore A o s)).crash.isSome then (kfUpdate A true (meekIterCore A o s), .crash)
+    else meekIterate o omega fuel (meekIterCore A o s).surplus (kfUpdate A true (meekIterCore A o s))
 
 def meekCountComplete (s : St α) : Bool :=
   decide ((s.hopeful.length : Int) ≤ s.seatsLeft) || decide (s.seatsLeft ≤ 0)
@@ -228,7 +231,7 @@ def prfIterate (omega : α) : Nat → α → St α → St α × PStatus
     else if A.ge s6.surplus lastsurplus then
       (s6.logMsg "Stable state detected" [] (some s6.surplus), .stable)
     else
-      let s7 := kfUpdate A s6
+      let s7 := kfUpdate A false s6
       if s7.crash.isSome then (s7, .stable) else prfIterate omega fuel s6.surplus s7
 
 def prfBody (omega : α) (iterFuel : Nat) (s : St α) : St α × Flow :=
